@@ -24,15 +24,34 @@ sys.path.insert(0, os.path.dirname(os.path.abspath(__file__)))
 
 MODULES = ["Verif.C16.Theorems"]
 THEOREMS = [
+    # (i) positions
+    "Verif.C16.fileOf_wf",
     "Verif.C16.position_valid",
     "Verif.C16.position_roundtrip",
     "Verif.C16.end_not_before_start",
+    # (ii) short ranges
     "Verif.C16.shortRange_within",
     "Verif.C16.getRange_within",
+    "Verif.C16.invB_iff",
+    # (iii) applying the edits of a fix
     "Verif.C16.apply_wellformed",
-    "Verif.C16.apply_length",
+    "Verif.C16.applyGo_perm",
     "Verif.C16.apply_sorted_eq_spec",
-    "Verif.C16.rewrite_preserves",
+    "Verif.C16.apply_length",
+    "Verif.C16.apply_any_order",
+    "Verif.C16.applySeq_order_matters",
+    # (iv) behaviour of the rewrite rules
+    "Verif.C16.Rw.ty_sound",
+    "Verif.C16.Rw.rewrite_preserves",
+    "Verif.C16.Rw.s1002_preserves",
+    "Verif.C16.Rw.s1002_preserves_left",
+    "Verif.C16.Rw.qf1001_preserves",
+    "Verif.C16.Rw.qf1006_condition",
+    "Verif.C16.Rw.qf1007_preserves",
+    "Verif.C16.Rw.s1003_table_correct",
+    "Verif.C16.Rw.s1003_preserves",
+    "Verif.C16.Rw.s1004_preserves",
+    "Verif.C16.Rw.qf1003_preserves",
 ]
 
 VARIANTS = ["base", "crlf", "parens", "breaks", "rename"]
@@ -555,7 +574,7 @@ def tie_generated_edits(ctx, applybin, n):
     lines = []
     for src, edits in cases:
         lines.append("apply %s 1 %d %s" % (hexb(src), len(edits), " ".join("%d %d %s" % (a, b, hexb(c)) for a, b, c in edits)))
-    rc, so, se = vlib.run([applybin], input="\n".join(lines) + "\n", env=vlib.go_env(), timeout=600)
+    rc, so, se = vlib.run(applybin, input="\n".join(lines) + "\n", env=vlib.go_env(), timeout=600)
     if rc != 0:
         raise vlib.HarnessError("c16apply failed: " + se[-2000:])
     impl = so.splitlines()
@@ -600,7 +619,7 @@ def tie_short(ctx, applybin, gofiles):
     """report.shortRange (real, via go:linkname) against the Lean case table on every
     statement-like node (and every 8th other node) of the given files; the parser
     invariants `Inv` are validated by the model's invB; oracle: pos ≤ end ≤ node end."""
-    rc, so, se = vlib.run([applybin], input="".join("shortfile %s\n" % f for f in gofiles), env=vlib.go_env(), timeout=900)
+    rc, so, se = vlib.run(applybin, input="".join("shortfile %s\n" % f for f in gofiles), env=vlib.go_env(), timeout=900)
     if rc != 0:
         raise vlib.HarnessError("c16apply shortfile failed: " + se[-2000:])
     recs = []
@@ -634,6 +653,65 @@ def tie_short(ctx, applybin, gofiles):
     return len(recs), kinds, diffs, viol, invfail
 
 
+def gen_rw_expr(r, ty, d):
+    """typed random expression in the prefix encoding of RwDriver.lean (v0-2 bool, v3-5 int; f0: bool->bool, f1: int->int)"""
+    if ty == "b":
+        k = r.below(12) if d > 0 else r.below(3)
+        if k == 0:
+            return "v %d" % r.below(3)
+        if k == 1:
+            return r.choice(["t", "f"])
+        if k == 2:
+            return "c 0 v %d" % r.below(3)
+        if k == 3:
+            return "! " + gen_rw_expr(r, "b", d - 1)
+        if k == 4 or k == 5:
+            return "( " + gen_rw_expr(r, "b", d - 1)
+        if k == 6 or k == 7:
+            return "&& %s %s" % (gen_rw_expr(r, "b", d - 1), gen_rw_expr(r, "b", d - 1))
+        if k == 8 or k == 9:
+            return "|| %s %s" % (gen_rw_expr(r, "b", d - 1), gen_rw_expr(r, "b", d - 1))
+        if k == 10:
+            return "%s %s %s" % (r.choice(["==", "!=", "<", "<=", ">", ">="]), gen_rw_expr(r, "i", d - 1), gen_rw_expr(r, "i", d - 1))
+        return "%s %s %s" % (r.choice(["==", "!="]), gen_rw_expr(r, "b", d - 1), gen_rw_expr(r, "b", d - 1))
+    k = r.below(8) if d > 0 else r.below(3)
+    if k == 0:
+        return "v %d" % (3 + r.below(3))
+    if k == 1:
+        return "n %d" % r.below(5)
+    if k == 2:
+        return "c 1 v %d" % (3 + r.below(3))
+    if k in (3, 4):
+        return "+ %s %s" % (gen_rw_expr(r, "i", d - 1), gen_rw_expr(r, "i", d - 1))
+    if k == 5:
+        return "/ %s %s" % (gen_rw_expr(r, "i", d - 1), gen_rw_expr(r, "i", d - 1))
+    return "( " + gen_rw_expr(r, "i", d - 1)
+
+
+def tie_rewrite(ctx, applybin, n):
+    """Lean negDM / simplify against the real astutil.NegateDeMorgan / SimplifyParentheses"""
+    rng = vlib.SplitMix(ctx.seed).fork("rw")
+    lines = []
+    for i in range(n):
+        d = 1 + rng.below(5)
+        k = rng.below(3)
+        if k < 2:
+            lines.append("rw negdm %d %s" % (k, gen_rw_expr(rng, "b", d)))
+        else:
+            lines.append("rw simplify %s" % gen_rw_expr(rng, rng.choice(["b", "b", "i"]), d))
+    lines = sorted(set(lines))
+    rc, so, se = vlib.run(applybin, input="\n".join(lines) + "\n", env=vlib.go_env(), timeout=600)
+    if rc != 0:
+        raise vlib.HarnessError("c16apply rw failed: " + se[-2000:])
+    impl = so.splitlines()
+    model = vlib.run_model(ctx, "C16", lines)
+    if len(impl) != len(lines):
+        raise vlib.HarnessError("c16apply rw: %d outputs for %d inputs" % (len(impl), len(lines)))
+    diffs = [{"input": l, "impl": a, "model": b} for l, a, b in zip(lines, impl, model) if a != b]
+    changed = sum(1 for l, a in zip(lines, impl) if a != l.split(" ", 3 if l.startswith("rw negdm") else 2)[-1])
+    return len(lines), changed, diffs, lines[:2]
+
+
 def gen_pos_cases(rng, n):
     cases = []
     for i in range(n):
@@ -649,7 +727,7 @@ def tie_generated_pos(ctx, applybin, n):
     rng = vlib.SplitMix(ctx.seed).fork("pos")
     cases = gen_pos_cases(rng, n)
     lines = ["pos %s %d %s" % (hexb(b), len(o), " ".join(map(str, o))) for b, o in cases]
-    rc, so, se = vlib.run([applybin], input="\n".join(lines) + "\n", env=vlib.go_env(), timeout=600)
+    rc, so, se = vlib.run(applybin, input="\n".join(lines) + "\n", env=vlib.go_env(), timeout=600)
     if rc != 0:
         raise vlib.HarnessError("c16apply pos failed: " + se[-2000:])
     impl = so.splitlines()
@@ -697,11 +775,15 @@ func tbs(id int, v []byte) []byte  { trace = append(trace, fmt.Sprintf("y%d=%q",
 func pb(id int) bool               { trace = append(trace, fmt.Sprintf("p%d", id)); panic(fmt.Sprintf("pb%d", id)) }
 
 type Str string
+type SStr string
+
+func (s SStr) String() string { trace = append(trace, "SStr.String"); return "<" + string(s) + ">" }
 type Tick int
 
 func (t Tick) String() string { trace = append(trace, fmt.Sprintf("String(%d)", int(t))); return fmt.Sprintf("T%d", int(t)) }
 
 type Inner struct{ A, B int }
+type Inner2 struct{ A, B int }
 type Mid struct {
 	Inner
 	C int
@@ -931,7 +1013,9 @@ def shape_S1003(g, r):
         fn, b = "IndexAny", g.string(1)[0]
     elif r.chance(1, 4):
         fn, b = "IndexRune", "'a'"
-    cmp_ = r.choice(["!= -1", "> -1", "== -1", ">= 0", "< 0"])
+    # the five forms the check rewrites and forms it must leave alone
+    cmp_ = r.choice(["!= -1", "> -1", "== -1", ">= 0", "< 0", "!= -1", "> -1", "== -1", ">= 0", "< 0",
+                     ">= -1", "< -1", "> 0", "== 0", "!= 0", "< 1", ">= 1"])
     return ctx_bool(g, ("%s.%s(%s, %s) %s" % (pkg, fn, a, b, cmp_), 3), r)
 
 
@@ -959,8 +1043,10 @@ def str_ctx(g, t, r):
 
 
 def shape_S1025(g, r):
-    k = r.below(4)
-    if k == 0:
+    k = r.below(5)
+    if k == 4:
+        a = "SStr(%s)" % g.string(1)[0]
+    elif k == 0:
         a = g.string(2)[0]
     elif k == 1:
         a = "Str(%s)" % g.string(1)[0]
@@ -1013,7 +1099,8 @@ def shape_S1011(g, r):
 
 
 def shape_S1033(g, r):
-    return "m := map[string]int{\"a\": 1, \"b\": 2}\n\tif _, ok := m[s0]; ok {\n\t\tdelete(m, s0)\n\t}\n\tres += fmt.Sprint(len(m))"
+    k = g.string(1)[0]      # the key may have effects: it is written twice in the trigger
+    return "m := map[string]int{\"a\": 1, \"b\": 2}\n\tif _, ok := m[%s]; ok {\n\t\tdelete(m, %s)\n\t}\n\tres += fmt.Sprint(len(m))" % (k, k)
 
 
 def shape_S1036(g, r):
@@ -1103,7 +1190,58 @@ def shape_QF1012(g, r):
     return "var sb strings.Builder\n\tsb.WriteString(fmt.Sprint(%s, %s))\n\tres += sb.String()" % (g.integer(1)[0], g.string(1)[0])
 
 
+def shape_S1001(g, r):
+    k = r.below(3)
+    n = r.choice(["len(xs)", "len(xs)", "len(xs) + 1", g.nonconst(g.integer(1)[0])])
+    if k == 0:
+        return "dst := make([]int, %s)\n\tfor i, x := range xs {\n\t\tdst[i] = x\n\t}\n\tres += fmt.Sprint(dst)" % n
+    if k == 1:
+        return "dst := make([]int, %s)\n\tfor i := range xs {\n\t\tdst[i] = xs[i]\n\t}\n\tres += fmt.Sprint(dst)" % n
+    return "var dst [4]int\n\tvar src [4]int\n\tcopy(src[:], xs)\n\tfor i := range src {\n\t\tdst[i] = src[i]\n\t}\n\tres += fmt.Sprint(dst)"
+
+
+def shape_S1018(g, r):
+    return ("ys := append([]int(nil), xs...)\n\tn, off := %s, %s\n\tfor i := 0; i < n; i++ {\n\t\tys[i] = ys[off+i]\n\t}\n\tres += fmt.Sprint(ys)"
+            % (r.choice(["len(xs) - 1", "i1", "1"]), r.choice(["1", "i2", "0"])))
+
+
+def shape_S1016(g, r):
+    return "v := Inner{%s, %s}\n\tw := Inner2{A: v.A, B: v.B}\n\tres += fmt.Sprint(w)" % (g.integer(1)[0], g.integer(1)[0])
+
+
+def shape_QF1011(g, r):
+    k = r.below(3)
+    if k == 0:
+        return "var v string = %s\n\tres += v" % g.string(2)[0]
+    if k == 1:
+        return "var v bool = %s\n\tres += fmt.Sprint(v)" % g.boolean(2)[0]
+    return "var v Tick = Tick(%s)\n\tres += fmt.Sprint(int(v))" % g.integer(1)[0]
+
+
+def shape_ST1017(g, r):
+    if r.chance(1, 2):
+        e = (r.choice(["1", "2", "0"]) + g.glue(r.choice(["==", "!="])) + g.operand(g.integer(2), 4), 3)
+    else:
+        e = (r.choice(['"a"', '""']) + g.glue(r.choice(["==", "!="])) + g.operand(g.string(2), 4), 3)
+    return ctx_bool(g, e, r)
+
+
+def shape_SA4013(g, r):
+    return ctx_bool(g, ("!!" + g.operand(g.boolean(2), 6), 6), r)
+
+
+def shape_SA6005(g, r):
+    f = r.choice(["ToLower", "ToUpper"])
+    return ctx_bool(g, ("strings.%s(%s) %s strings.%s(%s)" % (f, g.string(1)[0], r.choice(["==", "!="]), f, g.string(1)[0]), 3), r)
+
+
+# shapes of checks outside the simplification / quick-fix categories: their fixes must parse and
+# type-check, but are not claimed to be equivalent rewrites (no behaviour comparison)
+NO_BEHAVIOUR = {"ST1017", "SA4013", "SA6005"}
+
 SHAPES = {
+    "S1001": shape_S1001, "S1016": shape_S1016, "S1018": shape_S1018, "QF1011": shape_QF1011,
+    "ST1017": shape_ST1017, "SA4013": shape_SA4013, "SA6005": shape_SA6005,
     "S1002": shape_S1002, "S1003": shape_S1003, "S1004": shape_S1004, "S1005": shape_S1005, "S1010": shape_S1010,
     "S1011": shape_S1011, "S1021": shape_S1021, "S1025": shape_S1025, "S1028": shape_S1028, "S1030": shape_S1030,
     "S1033": shape_S1033, "S1036": shape_S1036, "S1039": shape_S1039,
@@ -1167,7 +1305,7 @@ def gen_shapes(ctx, genbin=None):
         text = open(cf).read()
         fs, cur = [], None
         for ln, l in enumerate(text.split("\n"), 1):
-            m_ = re.match(r"func (R_(\w+?)_\d+)\(in In\)", l)
+            m_ = re.match(r"func ([RG]_(\w+?)_\d+)\(in In\)", l)
             if m_:
                 cur = (m_.group(1), m_.group(2), ln)
             elif l == "}" and cur:
@@ -1183,7 +1321,7 @@ def gen_shapes(ctx, genbin=None):
     for fn_, fs in funcs.items():
         for (name, shape, l0, l1) in fs:
             for l in range(l0, l1 + 1):
-                shape_of[(fn_, l)] = ("corpus:" if name.startswith("R_") else "gen:") + shape
+                shape_of[(fn_, l)] = ("corpus:" if name[:2] in ("R_", "G_") else "gen:") + shape
     job["shape_of"] = shape_of
     return {"jobs": [job], "dir": d, "funcs": funcs,
             "summary": {"functions": sum(len(v) for v in funcs.values()), "per_shape": per, "shapes": sorted(SHAPES),
@@ -1202,7 +1340,7 @@ def build_and_run(ctx, name, srcdir, files):
         with open(os.path.join(d, os.path.basename(fn_)), "wb") as f:
             f.write(data)
     exe = os.path.join(d, "prog")
-    rc, so, se = vlib.run([vlib.GO, "build", "-o", exe, "."], cwd=d, env=vlib.go_env(), timeout=600)
+    rc, so, se = vlib.run([vlib.GO, "build", "-gcflags=-N -l", "-o", exe, "."], cwd=d, env=vlib.go_env(), timeout=600)
     if rc != 0:
         return None, se
     rc, so, se = vlib.run([exe], cwd=d, timeout=300)
@@ -1211,7 +1349,8 @@ def build_and_run(ctx, name, srcdir, files):
     out = {}
     for l in so.splitlines():
         w = l.split(" ", 2)
-        out[(w[0], int(w[1]))] = w[2]
+        # which run-time error it is (index vs. slice bounds, the numbers) is not part of the comparison
+        out[(w[0], int(w[1]))] = re.sub(r"PANIC\(runtime error: [^\"]*\)", "PANIC(runtime error)", w[2])
     return out, ""
 
 
@@ -1228,7 +1367,9 @@ def run_behaviour(ctx, gen, res, files):
             continue
         for (name, shape, l0, l1) in gen["funcs"][f]:
             if l0 <= d["pos"]["line"] <= l1:
-                if d["cat"] == shape and name not in chosen:
+                if d["cat"] == shape and shape in NO_BEHAVIOUR:
+                    triggered[shape] = triggered.get(shape, 0) + 1
+                elif d["cat"] == shape and name not in chosen:
                     chosen[name] = (d, f, shape)
                     triggered[shape] = triggered.get(shape, 0) + 1
                 break
@@ -1372,6 +1513,7 @@ def report_failures(ctx, fails, files, known):
         f = fs[0]
         obj = {
             "what": KIND_TEXT.get(f.kind, f.kind), "key": key, "check": f.cat, "count": len(fs),
+            "seed": ctx.seed, "tier": ctx.tier,
             "variant": f.job.get("variant"), "job": f.job["id"],
             "file": rel_to_corpus(ctx, f.diag["pos"]["file"]), "why": f.why,
             "position": "%d:%d" % (f.diag["pos"]["line"], f.diag["pos"]["col"]),
@@ -1384,7 +1526,7 @@ def report_failures(ctx, fails, files, known):
                             if get_file(files, f.diag["pos"]["file"]) and get_file(files, f.diag["pos"]["file"]).size < 60000 else None),
             "how_to_replay": "write source_file as a package in a module `go %s`, run staticcheck -checks %s "
                              "(quickfix checks: -debug.run-quickfix-analyzers) -f json; apply the suggested fix's edits; "
-                             "or: VERIF_SEED=%d ./check C16 --tier %s" % (f.job.get("gover", "1.21"), f.cat, ctx.seed, ctx.tier),
+                             "or: ./check C16 --replay <this file> (re-runs job %s of seed %d, tier %s)" % (f.job.get("gover", "1.21"), f.cat, f.job["id"], ctx.seed, ctx.tier),
             "others": [{"file": rel_to_corpus(ctx, g.diag["pos"]["file"]), "pos": "%d:%d" % (g.diag["pos"]["line"], g.diag["pos"]["col"]), "why": g.why[:300]} for g in fs[1:20]],
         }
         kf = [k for k in known if key == k or key.startswith(k + ":")]
@@ -1402,9 +1544,9 @@ def sample_units(ctx, units):
     # checks with fixes are what clause (iii) is about: always keep a share of them
     fixy = [u for u in units if re.match(r"(s1|qf1)\d+", u[0])]
     rest = [u for u in units if u not in fixy]
-    n1, n2 = 22, 10
+    n1, n2 = 20, 10
     pick = rng.shuffle(fixy)[:n1] + rng.shuffle(rest)[:n2]
-    return sorted(pick)
+    return rng.shuffle(sorted(pick))
 
 
 def run(ctx):
@@ -1413,26 +1555,37 @@ def run(ctx):
         return 0
     t0 = time.time()
     timing = {}
+    only_job = None
+    if getattr(ctx, "replay", None):
+        rp = json.load(open(ctx.replay))
+        if "job" not in rp:
+            raise vlib.HarnessError("replay file names no job (correspondence replays are re-checked by a normal run)")
+        ctx.seed, ctx.tier, only_job = int(rp.get("seed", ctx.seed)), rp.get("tier", ctx.tier), rp["job"]
     lean_ok, lean_broke = vlib.std_lean_phase(ctx, MODULES, THEOREMS)
     timing["lean"] = round(time.time() - t0, 1)
     with ThreadPoolExecutor(max_workers=4) as ex:
-        futs = [ex.submit(vlib.build_harness, ctx, n) for n in ("c16lint", "c16variant", "c16apply")]
-        lintbin, varbin, applybin = [f.result() for f in futs]
+        futs = [ex.submit(vlib.build_harness, ctx, n) for n in ("c16lint", "c16variant")]
+        lintbin, varbin = [f.result() for f in futs]
+    applybin = [lintbin, "-mode", "apply"]
     timing["build"] = round(time.time() - t0, 1)
     known = vlib.load_known_findings("C16")
 
     # ---- corpus: testdata units and their variants
     all_units = list_units(vlib.REPO)
     units = sample_units(ctx, all_units)
-    if ctx.quick:
-        variants = ["base", VARIANTS[1 + vlib.SplitMix(ctx.seed).fork("variant").below(len(VARIANTS) - 1)]]
-    else:
-        variants = list(VARIANTS)
-    bundles = plan_bundles(units)
     stats = {}
     jobs = []
-    for v in variants:
-        jobs += materialise(ctx, varbin, v, bundles, ctx.seed, stats)
+    if ctx.quick:
+        # every sampled unit in one form: the first half as it is, the other half in the seeded variant
+        variants = ["base", VARIANTS[1 + vlib.SplitMix(ctx.seed).fork("variant").below(len(VARIANTS) - 1)]]
+        half = (len(units) + 1) // 2
+        for v, us in ((variants[0], units[:half]), (variants[1], units[half:])):
+            jobs += materialise(ctx, varbin, v, plan_bundles(us), ctx.seed, stats)
+    else:
+        variants = list(VARIANTS)
+        bundles = plan_bundles(units)
+        for v in variants:
+            jobs += materialise(ctx, varbin, v, bundles, ctx.seed, stats)
     for j in jobs:
         j["weight"] = sum(len(fs) for _, _, fs in os.walk(j["dir"]))
         j["gover"] = re.search(r"go(1\.\d+)_", j["id"]).group(1)
@@ -1441,10 +1594,15 @@ def run(ctx):
     jobs += gen["jobs"]
     timing["corpus"] = round(time.time() - t0, 1)
 
+    if only_job:
+        jobs = [j for j in jobs if j["id"] == only_job]
+        if not jobs:
+            raise vlib.HarnessError("replay: job %s does not exist for seed %d tier %s" % (only_job, ctx.seed, ctx.tier))
     # one small job first: it fills the shared cache with the facts of the standard library
     jobs.sort(key=lambda j: j["weight"])
     res = run_lint_jobs(ctx, lintbin, jobs[:1], 1)
-    res.update(run_lint_jobs(ctx, lintbin, jobs[1:], 6 if ctx.quick else 8))
+    if len(jobs) > 1:
+        res.update(run_lint_jobs(ctx, lintbin, jobs[1:], 6 if ctx.quick else 8))
     timing["lint"] = round(time.time() - t0, 1)
 
     files = {}
@@ -1457,7 +1615,10 @@ def run(ctx):
         fails += validate_job(ctx, j, o, files, acc)
 
     # ---- behaviour of equivalent-rewrite fixes on the generated functions
-    beh = run_behaviour(ctx, gen, res, files)
+    if only_job and only_job != gen["jobs"][0]["id"]:
+        beh = {"fails": [], "runs": 0, "distinct": 0, "summary": {}, "samples": []}
+    else:
+        beh = run_behaviour(ctx, gen, res, files)
     fails += beh["fails"]
     timing["behaviour"] = round(time.time() - t0, 1)
 
@@ -1465,19 +1626,24 @@ def run(ctx):
     npos, pos_diffs = tie_positions(ctx, files, acc, maxfiles=60 if ctx.quick else None)
     nfix, napart, edit_diffs = tie_edits(ctx, files, acc)
     ngen, edit_hist, gen_edit_diffs, edit_samples = tie_generated_edits(ctx, applybin, 1500 if ctx.quick else 20000)
-    gofiles = sorted(f for f in files if files[f] is not None and f.endswith(".go") and "/corpus/" in f)
+    gofiles = sorted(f for f in files if files[f] is not None and f.endswith(".go") and ("/corpus/" in f or "/gen/src/" in f))
     if ctx.quick and len(gofiles) > 60:
         gofiles = vlib.SplitMix(ctx.seed).fork("shortfiles").shuffle(gofiles)[:60]
     nshort, short_kinds, short_diffs, short_viol, inv_fail = tie_short(ctx, applybin, gofiles)
     ngpos, gpos_diffs, gpos_viol = tie_generated_pos(ctx, applybin, 1000 if ctx.quick else 10000)
+    nrw, nrw_changed, rw_diffs, rw_samples = tie_rewrite(ctx, applybin, 3000 if ctx.quick else 30000)
     timing["ties"] = round(time.time() - t0, 1)
 
     # ---- report
     report_failures(ctx, fails, files, known)
-    for v in short_viol[:5]:
-        ctx.violation("shortrange_%s.json" % v["node"].split()[0], dict(v, what="report.shortRange yields a range outside the node",
-                      how_to_replay="echo 'shortfile <file>' | harness/cmd/c16apply"),
-                      text="C16: shortRange outside its node: %s" % v["node"])
+    by_kind = {}
+    for v in short_viol:
+        by_kind.setdefault(v["node"].split()[0], []).append(v)
+    for k, vs in sorted(by_kind.items()):
+        ctx.violation("shortrange_%s.json" % k, dict(vs[0], what="report.shortRange yields a range that does not start at the node or leaves it",
+                      count=len(vs), others=vs[1:10], source=(open(vs[0]["file"]).read() if os.path.getsize(vs[0]["file"]) < 60000 else None),
+                      how_to_replay="echo 'shortfile <file>' | c16lint -mode apply  (descriptor: kind + offsets; '= pos end' is what report.shortRange returned)"),
+                      text="C16: report.shortRange outside its node (%d nodes), e.g. %s => %s in %s" % (len(vs), vs[0]["node"], vs[0]["shortRange"], vs[0]["file"]))
     for v in gpos_viol[:3]:
         ctx.violation("position_generated.json", dict(v, what="go/token position does not exist in the file"), text="C16: generated file: %s" % v["why"])
     broke = {}
@@ -1488,7 +1654,8 @@ def run(ctx):
                     ("fix application: model vs testutil.applyEdits on generated edit sets", gen_edit_diffs),
                     ("shortRange: model vs report.shortRange", short_diffs),
                     ("parser invariants assumed by shortRange_within (Inv) on corpus nodes", inv_fail),
-                    ("positions: model vs go/scanner+go/token on generated files", gpos_diffs)):
+                    ("positions: model vs go/scanner+go/token on generated files", gpos_diffs),
+                    ("rewrite functions: model negDM/simplify vs astutil.NegateDeMorgan/SimplifyParentheses", rw_diffs)):
         if d:
             broke[name] = d[:20]
     if broke and not ctx.violations:
@@ -1502,7 +1669,7 @@ def run(ctx):
 
     nontrivial = len(acc["nontrivial"])
     ctx.coverage.update({
-        "evaluations": acc["diagnostics"] + acc["fixes"] + ngen + nshort + ngpos + beh["runs"],
+        "evaluations": acc["diagnostics"] + acc["fixes"] + ngen + nshort + ngpos + nrw + beh["runs"],
         "distinct_nontrivial": nontrivial + beh["distinct"],
         "rule": "a distinct (file, start, end, check, message) diagnostic that has an end position or a suggested fix, "
                 "plus distinct generated functions whose fix was executed before/after on inputs",
@@ -1517,10 +1684,11 @@ def run(ctx):
         "tie_generated_edit_sets": ngen, "generated_edit_sets": edit_hist,
         "tie_shortrange_nodes": nshort, "shortrange_kinds": dict(sorted(short_kinds.items())),
         "tie_generated_position_files": ngpos,
+        "tie_rewrite_expressions": nrw, "tie_rewrite_expressions_changed_by_rule": nrw_changed,
         "generated_shapes": gen["summary"], "behaviour": beh["summary"],
         "samples": [{"diagnostic": list(x)} for x in sorted(acc["nontrivial"])[:: max(1, nontrivial // 5)][:5]] + [{"edit_case": l[:200]} for l in edit_samples[:2]] + beh["samples"][:3],
         "timing_s": timing,
-        "programs": len(units) * len(variants) + gen["summary"].get("functions", 0), "disagreements_checked": len(broke),
+        "programs": (len(units) if ctx.quick else len(units) * len(variants)) + gen["summary"].get("functions", 0), "disagreements_checked": len(broke),
     })
     ctx.assumptions += [
         "go/token (line table, File.Position), go/scanner, go/parser, go/types and go/printer are modelled or used as oracles, not verified",
@@ -1537,9 +1705,26 @@ def run(ctx):
 META = {
     "level": "proof",
     "technique": "Lean 4 theorems over models of go/token positions, report.shortRange/getRange, the repository's fix applier and "
-                 "a first batch of rewrite rules; executable correspondence with the real runner, testutil.applyEdits and report.shortRange; "
-                 "toolchain oracle (go/parser, go/types, compile-and-run) over testdata packages, their variants and generated trigger shapes",
-    "text": "TODO",
-    "note": "TODO",
+                 "a first batch of rewrite rules; executable correspondence with the real runner, testutil.applyEdits, report.shortRange, "
+                 "astutil.NegateDeMorgan/SimplifyParentheses; toolchain oracle (go/parser, go/types, compile-and-run before/after) over "
+                 "testdata packages, their variants and generated trigger shapes",
+    "text": "Proved in Lean for all inputs of the models: (i) every offset of every file maps to an existing line/column, offset->(line,col)->offset "
+            "round-trips, end>=start is preserved (model of go/token File.position over the scanner's line table); (ii) shortRange/getRange stay "
+            "inside the node for all node kinds under named parser invariants; (iii) for all in-bounds, non-overlapping edit sets the sorted order "
+            "is unique (listing order / unstable sort cannot matter), the repository's applier (testutil.applyEdits, modelled with its running "
+            "offset) equals the splice specification, length formula, and a re-basing client gets the same text in any order when no pure "
+            "insertion touches another edit (with a proved counterexample otherwise); (iv) rewrite_preserves: S1002, S1003, S1004, QF1001 (all "
+            "four alternatives incl. SimplifyParentheses), QF1006 (condition), QF1007, QF1002/QF1003 (if-chain -> tagged switch) do not change "
+            "result, panics or events of an effectful expression language, for all well-typed operands. The models are tied to the current /repo "
+            "on every run (runner positions, real fixes through testutil.applyEdits, report.shortRange on every corpus node, NegateDeMorgan / "
+            "SimplifyParentheses on generated expressions). EXPLORED, not proved: that every analyzer's positions and fixes satisfy the statement "
+            "(all testdata packages x 5 variants, generated trigger shapes of 27 checks (24 simple/quickfix with behaviour comparison); parse/type-check by go/parser+go/types, "
+            "behaviour by executing generated functions before/after each fix). Not covered: std/the repository as corpus, checks without a "
+            "generated shape (their fixes are only parsed/type-checked on testdata), renamed-import shadowing.",
+    "note": "Trusted: Lean kernel (axioms propext/Classical.choice/Quot.sound), compiled c16driver, harness/cmd/c16lint|c16apply|c16variant and "
+            "checks/c16.py (oracle, generators), go/token, go/scanner, go/parser, go/types, go/printer, the Go compiler. The Lean expression semantics "
+            "(left-to-right evaluation, short-circuit, panics) is a model of the Go spec, not verified against it. Seven defects were found by the "
+            "check and fixed in /repo (S1002, QF1001, QF1005, QF1002/QF1003, astutil.SimplifyParentheses, S1033, SA4013) and two by-design "
+            "deviations are listed as findings (S1001, S1018: copy() panics differ from the loop); see findings.d/C16.txt.",
     "design_ref": "DESIGN.md section 5, C16",
 }
